@@ -973,7 +973,29 @@ func (c *DnsController) processBpfUpdateTask(task *bpfUpdateTask, draining bool)
 	if task == nil || task.cache == nil {
 		return false
 	}
+	// The task was queued on a cache hit; the entry may have been evicted or
+	// replaced since. Installing the routing of an entry that is no longer in
+	// the cache would leave its addresses in domain_routing_map for ever: no
+	// later eviction removes them.
+	ownerKey := task.cache.RouteOwnerKey
+	stillCached := func() bool {
+		if ownerKey == "" {
+			return true
+		}
+		current, ok := c.dnsCache.Load(ownerKey)
+		return ok && current == any(task.cache)
+	}
+	if !stillCached() {
+		return true
+	}
 	if rt := c.runtime(); rt != nil && rt.cacheAccessCallback != nil {
+		defer func() {
+			// Evicted while the install ran: the eviction's delete may have
+			// come first, so take the owner out again.
+			if !stillCached() {
+				c.invokeCacheDeleteCallback(ownerKey, task.cache)
+			}
+		}()
 		if err := rt.cacheAccessCallback(task.cache); err != nil {
 			if c.log != nil {
 				suffix := ""
